@@ -17,7 +17,8 @@ try:
         print('PATCH DOES NOT APPLY', r.stderr); sys.exit(3)
     for p in props:
         env = dict(os.environ, VERIF_REPO=wt, VERIF_OUT=out)
-        r = subprocess.run(['/verif/check', p, '--tier', tier], cwd='/verif', env=env, capture_output=True, text=True)
+        V = os.environ.get('VERIF_SNAP', '/verif')      # a frozen copy of /verif (tools/seed_matrix.py) or the working tree
+        r = subprocess.run([V + '/check', p, '--tier', tier], cwd=V, env=env, capture_output=True, text=True)
         lines = [l for l in r.stdout.splitlines() if l.startswith('VIOLATION') or l.startswith('  ')]
         status = {0: 'MISSED', 1: 'DETECTED', 2: 'MACHINERY'}.get(r.returncode, 'rc=%d' % r.returncode)
         print('%s %s %s' % (p, status, os.path.basename(os.path.dirname(patch))))
